@@ -37,6 +37,7 @@ type Scenario struct {
 	Worker string `json:"worker"`
 	State  string `json:"state"`
 	Cap    int    `json:"cap"`
+	Stall  int    `json:"stall"` // ms the worker stays in the blocking state before its context is cancelled
 }
 
 type Rec struct {
@@ -45,6 +46,7 @@ type Rec struct {
 	Worker   string `json:"worker"`
 	State    string `json:"state"`
 	Cap      int    `json:"cap"`
+	Stall    int    `json:"stall"`
 	Reached  bool   `json:"reached"`
 	Returned bool   `json:"returned"`
 	Ms       int    `json:"ms"`
@@ -87,6 +89,9 @@ func waitFor(d time.Duration, cond func() bool) bool {
 
 // finish cancels and measures.
 func finish(rec *Rec, cancel context.CancelFunc, done <-chan error, progress func() int64) {
+	if rec.Stall > 0 { // a long stall in the blocking state (a worker that gives up waiting politely after a while ...)
+		time.Sleep(time.Duration(rec.Stall) * time.Millisecond)
+	}
 	before := time.Now()
 	cancel()
 	select {
@@ -334,7 +339,7 @@ func main() {
 	}
 	recs := make([]Rec, len(all))
 	var wg sync.WaitGroup
-	sem := make(chan struct{}, 6)
+	sem := make(chan struct{}, 10)
 	for i, sc := range all {
 		wg.Add(1)
 		i, sc := i, sc
@@ -343,7 +348,7 @@ func main() {
 			defer wg.Done()
 			defer func() { <-sem }()
 			rec := &recs[i]
-			*rec = Rec{K: "worker", ID: i, Worker: sc.Worker, State: sc.State, Cap: sc.Cap}
+			*rec = Rec{K: "worker", ID: i, Worker: sc.Worker, State: sc.State, Cap: sc.Cap, Stall: sc.Stall}
 			switch sc.Worker {
 			case "A":
 				runA(*dir, sc, rec)
